@@ -646,7 +646,27 @@ func doCall(a *arena, c C13Call) (out string, failed bool) {
 				sc = a.Scalars[3]
 				pt = a.ElemVal[0]
 			}
-			return tr.ChallengeScalar([]byte("c"))
+			// the challenge label is a caller buffer too, reused ("formatted into one scratch
+			// slice") for the next round
+			clab := append([]byte{}, a.Labels[pick(nBufs, c.N)]...)
+			c1 := tr.ChallengeScalar(clab)
+			if scribble {
+				for i := range clab {
+					clab[i] ^= 0x3c
+				}
+			}
+			tr.AppendScalar(&c1, []byte("next"))
+			dlab := append([]byte{}, a.Labels[pick(nBufs, c.A+1)]...)
+			tr.DomainSep(dlab)
+			if scribble {
+				for i := range dlab {
+					dlab[i] ^= 0x77
+				}
+			}
+			c2 := tr.ChallengeScalar([]byte("c2"))
+			var both fr.Element
+			both.Add(&c1, &c2)
+			return both
 		}
 		c1, c2 := run(false), run(true)
 		if c1 != c2 {
